@@ -463,6 +463,25 @@ static bool has_flonum2(Type *ty) {
   return has_flonum(ty, 8, 16, 0);
 }
 
+// A struct or union of at most 16 bytes occupies one register per
+// eightbyte that the value actually has. This function stores the
+// number of general-purpose and SSE registers it needs to *ngp and
+// *nfp and returns true if that many are still free when `gp` and
+// `fp` registers of each kind are already taken.
+static bool struct_in_regs(Type *ty, int gp, int fp, int *ngp, int *nfp) {
+  bool fp1 = has_flonum1(ty);
+  *nfp = fp1;
+  *ngp = !fp1;
+
+  if (ty->size > 8) {
+    bool fp2 = has_flonum2(ty);
+    *nfp += fp2;
+    *ngp += !fp2;
+  }
+
+  return (!*nfp || fp + *nfp <= FP_MAX) && (!*ngp || gp + *ngp <= GP_MAX);
+}
+
 static void push_struct(Type *ty) {
   int sz = align_to(ty->size, 8);
   println("  sub $%d, %%rsp", sz);
@@ -541,12 +560,10 @@ static int push_args(Node *node) {
         arg->pass_by_stack = true;
         stack += align_to(ty->size, 8) / 8;
       } else {
-        bool fp1 = has_flonum1(ty);
-        bool fp2 = has_flonum2(ty);
-
-        if (fp + fp1 + fp2 < FP_MAX && gp + !fp1 + !fp2 < GP_MAX) {
-          fp = fp + fp1 + fp2;
-          gp = gp + !fp1 + !fp2;
+        int ngp, nfp;
+        if (struct_in_regs(ty, gp, fp, &ngp, &nfp)) {
+          fp += nfp;
+          gp += ngp;
         } else {
           arg->pass_by_stack = true;
           stack += align_to(ty->size, 8) / 8;
@@ -930,17 +947,15 @@ static void gen_expr(Node *node) {
         if (ty->size > 16)
           continue;
 
-        bool fp1 = has_flonum1(ty);
-        bool fp2 = has_flonum2(ty);
-
-        if (fp + fp1 + fp2 < FP_MAX && gp + !fp1 + !fp2 < GP_MAX) {
-          if (fp1)
+        int ngp, nfp;
+        if (struct_in_regs(ty, gp, fp, &ngp, &nfp)) {
+          if (has_flonum1(ty))
             popf(fp++);
           else
             pop(argreg64[gp++]);
 
           if (ty->size > 8) {
-            if (fp2)
+            if (has_flonum2(ty))
               popf(fp++);
             else
               pop(argreg64[gp++]);
@@ -1390,11 +1405,10 @@ static void assign_lvar_offsets(Obj *prog) {
       case TY_STRUCT:
       case TY_UNION:
         if (ty->size <= 16) {
-          bool fp1 = has_flonum(ty, 0, 8, 0);
-          bool fp2 = has_flonum(ty, 8, 16, 8);
-          if (fp + fp1 + fp2 < FP_MAX && gp + !fp1 + !fp2 < GP_MAX) {
-            fp = fp + fp1 + fp2;
-            gp = gp + !fp1 + !fp2;
+          int ngp, nfp;
+          if (struct_in_regs(ty, gp, fp, &ngp, &nfp)) {
+            fp += nfp;
+            gp += ngp;
             continue;
           }
         }
